@@ -15,7 +15,10 @@ mod plan;
 mod reffmt;
 mod rt;
 mod sc_holder;
+mod sc_mutex;
 mod sc_queue;
+mod sc_stats;
+mod sock;
 mod toy;
 mod wmodel;
 mod writer;
@@ -84,6 +87,11 @@ fn run_spec(spec: &Spec) -> common::Report {
         "fmt04" => fmt::run_c04(spec),
         "num" => num::run(spec),
         "calls" => calls::run(spec),
+        "mutex" => sc_mutex::run(spec),
+        "stats" => sc_stats::run(spec),
+        "sock-unbuf" => sock::unbuffered(spec),
+        "sock-buf" => sock::buffered(spec),
+        "sock-faults" => sock::stats_faults(spec),
         other => {
             let mut r = common::Report::new(&spec.raw);
             r.errors.push(format!("unknown engine {:?}", other));
@@ -97,6 +105,8 @@ fn scenario_of(spec: &Spec) -> Option<Box<dyn explore::Scenario>> {
     match spec.engine.as_str() {
         "holder" => Some(Box::new(sc_holder::scenario(&spec.str("prog", "S1.G")))),
         "queue" => Some(Box::new(sc_queue::scenario(spec))),
+        "mutex" => Some(Box::new(sc_mutex::scenario(spec))),
+        "stats" => Some(Box::new(sc_stats::scenario(spec))),
         _ => None,
     }
 }
